@@ -354,6 +354,54 @@ def residue_divisor(repo, unparsed):
     return '(0 : K)', False
 
 
+def make_flags(repo, unparsed):
+    """transformer.py `UnilateralInverseTransformer.make`: the result is wrapped in Piecewise((result, var >= 0)) under
+           if not kwargs.get('causal', False):
+               if uresult != 0:
+       -> (guard requires `not causal`, guard requires a non-zero unilateral part, recognised)"""
+    try:
+        with warnings.catch_warnings():
+            warnings.simplefilter('ignore')
+            tree = ast.parse(open(os.path.join(repo, 'lcapy', 'transformer.py')).read())
+    except (SyntaxError, OSError) as e:
+        unparsed.append('transformer.py: %s' % e)
+        return False, False, False
+    fdef = None
+    for node in tree.body:
+        if isinstance(node, ast.ClassDef) and node.name == 'UnilateralInverseTransformer':
+            for f in node.body:
+                if isinstance(f, ast.FunctionDef) and f.name == 'make':
+                    fdef = f
+    if fdef is None:
+        unparsed.append('UnilateralInverseTransformer.make not found')
+        return False, False, False
+
+    def wraps(st):
+        return isinstance(st, ast.Assign) and 'Piecewise((result, var >= 0))' in ast.unparse(st.value)
+    # find the Piecewise assignment and the chain of enclosing `if` tests
+    def search(stmts, tests):
+        for st in stmts:
+            if wraps(st):
+                return tests
+            if isinstance(st, ast.If):
+                r = search(st.body, tests + [ast.unparse(st.test)])
+                if r is not None:
+                    return r
+                if st.orelse and search(st.orelse, tests + ['else']) is not None:
+                    return None          # a guard in an else branch: not the recognised shape
+        return None
+    tests = search(fdef.body, [])
+    if tests is None:
+        unparsed.append('make: Piecewise guard not recognised')
+        return False, False, False
+    known = {"not kwargs.get('causal', False)": 'causal', 'uresult != 0': 'ures'}
+    if any(t not in known for t in tests):
+        unparsed.append('make: unrecognised guard condition %s' % tests)
+        return False, False, False
+    kinds = [known[t] for t in tests]
+    return 'causal' in kinds, 'ures' in kinds, True
+
+
 def generate(repo):
     path = os.path.join(repo, 'lcapy', 'inverse_laplace.py')
     src = open(path).read()
@@ -395,6 +443,7 @@ def generate(repo):
         unparsed.append(str(e))
     key_opts, read_opts, found_key, key_defs, read_defs = option_tables(repo, unparsed)
     res_div, res_ok = residue_divisor(repo, unparsed)
+    mk_causal, mk_ures, mk_ok = make_flags(repo, unparsed)
 
     def plst(xs):
         return '[' + ', '.join('("%s", "%s")' % (a, b.replace('"', "'")) for a, b in xs) + ']'
@@ -426,12 +475,18 @@ def generate(repo):
         'def qLoopTranslated : Bool := %s' % ('true' if q_ok else 'false'),
         '/-- ratfun.py `_find_residues_sub`: what the m-th derivative (m = M[i] - O[i]) is divided by -/',
         'def residueDivisor {K : Type} [Add K] [Mul K] [OfNat K 0] [OfNat K 1] (m : Nat) : K := %s' % res_div,
-        'def residueDivisorTranslated : Bool := %s' % ('true' if res_ok else 'false')] + ds_lines + [
+        'def residueDivisorTranslated : Bool := %s' % ('true' if res_ok else 'false'),
+        '/-- transformer.py `make`: the `t >= 0` condition is attached only under `if not kwargs.get(\'causal\', False)` -/',
+        'def makeGuardOnlyIfNotCausal : Bool := %s' % ('true' if mk_causal else 'false'),
+        '/-- ... and only under `if uresult != 0` -/',
+        'def makeGuardOnlyIfUnilateral : Bool := %s' % ('true' if mk_ures else 'false'),
+        'def makeTranslated : Bool := %s' % ('true' if mk_ok else 'false')] + ds_lines + [
         'end Lcapy.Laplace.Gen', ''])
     return text, {'defs': (['conjPartnerMustBeSimple'] if found else []) + (['keyOptions', 'readOptions'] if found_key else []),
                   'unparsed': unparsed, 'flag': flag, 'keyOptions': key_opts, 'readOptions': read_opts,
                   'dampedSin': ds_info, 'qLoop': {'dense': q_dense, 'orderByLen': q_bylen, 'translated': q_ok},
-                  'residueDivisor': {'lean': res_div, 'translated': res_ok}}
+                  'residueDivisor': {'lean': res_div, 'translated': res_ok},
+                  'make': {'guardOnlyIfNotCausal': mk_causal, 'guardOnlyIfUnilateral': mk_ures, 'translated': mk_ok}}
 
 
 if __name__ == '__main__':
